@@ -225,65 +225,10 @@ def check(ctx):
                 ctx.decide(cont, "C07-R4", mod.module_assign(name) or mod.tree, DIH, name, "row %s continues a row of the previous chi" % (r,), "",
                            "row %s of %s does not start with the last three atoms of any row of the previous chi table: the side chain is not walked outward" % (r, name))
         prev_rows = rows
-    # parse_offsets / _strip_offsets semantics and _atom_sequence lookup
-    po = mod.functions.get("parse_offsets")
-    so = mod.functions.get("_strip_offsets")
-    if po is None or so is None:
-        ctx.undecided("C07-R4", mod.tree, DIH, "parse_offsets", "offset helpers", "not found")
-    else:
-        def table(fn, what):
-            """{prefix char or None: value appended} from the if / elif / else chain on atom[0]"""
-            tab = {}
-            for n in walk_no_nested(fn):
-                if isinstance(n, ast.If) and isinstance(n.test, ast.Compare) and src(n.test.left) == "atom[0]" and isinstance(n.test.ops[0], ast.Eq):
-                    key = const(n.test.comparators[0])
-                    app = [c for s_ in n.body for c in ast.walk(s_) if isinstance(c, ast.Call) and (call_name(c) or "").endswith(".append")]
-                    if app:
-                        tab[key] = src(app[0].args[0]).replace("+", "")
-                    if n.orelse and not isinstance(n.orelse[0], ast.If):
-                        app = [c for s_ in n.orelse for c in ast.walk(s_) if isinstance(c, ast.Call) and (call_name(c) or "").endswith(".append")]
-                        if app:
-                            tab[None] = src(app[0].args[0]).replace("+", "")
-            return tab
-        t1 = table(po, "offsets")
-        ctx.decide(t1 == {"-": "-1", "+": "1", None: "0"}, "C07-R4", po, DIH, "parse_offsets", "'-' -> -1, '+' -> +1, else 0", str(t1), "offset parsing is %s" % t1)
-        t2 = table(so, "atoms")
-        ctx.decide(t2 == {"-": "atom[1:]", "+": "atom[1:]", None: "atom"}, "C07-R4", so, DIH, "_strip_offsets", "prefix stripped for '-' and '+', name kept otherwise", str(t2), "prefix stripping is %s" % t2)
-    seq = ctx.py.func(DIH, "_atom_sequence")
-    s = re.sub(r"[\s()]", "", src(seq))
-    ctx.decide("atom_dict[cid][rid+offset][atom]foratom,offsetinatoms_and_offsets" in s and "rid+offsetinatom_dict[cid]" in s and "atoms_and_offsets=listzipatom_names,residue_offsets" in s, "C07-R4", seq, DIH, "_atom_sequence",
-               "atoms looked up in residue rid+offset of the same chain", "", "atom lookup by residue offset within the chain changed")
-    # the lookup tree is per chain and per residue: each level's dict is created inside the loop that fills it
-    cad = ctx.py.func(DIH, "_construct_atom_dict")
-
-    def created_in(loop, name):
-        """`name` is bound to a new dict (literal, dict(), comprehension) by a statement directly in the body of `loop`"""
-        for st in loop.body:
-            if isinstance(st, ast.Assign) and dotted(st.targets[0]) == name and (isinstance(st.value, (ast.Dict, ast.DictComp)) or (isinstance(st.value, ast.Call) and call_name(st.value) == "dict")):
-                return True
-        return False
-    for lp_iter, key in (("topology.chains", "chain.index"), ("chain.residues", "residue.index")):
-        loops = [n for n in ast.walk(cad) if isinstance(n, ast.For) and src(n.iter) == lp_iter]
-        ok = False
-        why = "loop over %s not found" % lp_iter
-        comps = [n for n in ast.walk(cad) if isinstance(n, ast.DictComp) and len(n.generators) == 1 and src(n.generators[0].iter) == lp_iter and src(n.key) == key]
-        if comps and not loops:
-            # {chain.index: {...} for chain in topology.chains}: the value expression is evaluated anew for every element
-            v = comps[0].value
-            ok = isinstance(v, (ast.Dict, ast.DictComp)) or (isinstance(v, ast.Call) and call_name(v) == "dict")
-            why = "the value stored under %s in the comprehension over %s is `%s`, not a dict built per element" % (key, lp_iter, src(v)[:60])
-            loops = comps
-        elif loops:
-            lp = loops[0]
-            stores = [st for st in lp.body if isinstance(st, ast.Assign) and isinstance(st.targets[0], ast.Subscript) and src(st.targets[0].slice) == key]
-            if stores:
-                v = stores[0].value
-                ok = isinstance(v, (ast.Dict, ast.DictComp)) or (isinstance(v, ast.Name) and created_in(lp, v.id))
-                why = "the dict stored under %s is `%s`, created outside the loop over %s: all entries share one dict" % (key, src(v), lp_iter)
-            else:
-                why = "no store under %s in the loop over %s" % (key, lp_iter)
-        ctx.decide(ok, "C07-R4", loops[0] if loops else cad, DIH, "_construct_atom_dict", "a new dict per %s" % key.split(".")[0], "",
-                   why + " - residues of different chains are then looked up in each other's chain and torsions are reported across chain boundaries")
+    # indices_phi / psi / omega evaluated (sa/tensym.py, with _atom_sequence, _construct_atom_dict, parse_offsets and _strip_offsets in scope) on a
+    # model topology of two chains - residues 0..2 and 3..4, residue 1 without C, complete backbones on both sides of the chain boundary: the quadruples found are those of the
+    # definition (atom `-X` in the previous residue *of the same chain*, `+X` in the next one, every atom present), in residue order
+    _backbone_indices_by_evaluation(ctx, mod)
     for nm, tab in (("indices_phi", "PHI_ATOMS"), ("indices_psi", "PSI_ATOMS"), ("indices_omega", "OMEGA_ATOMS"), ("indices_chi1", "CHI1_ATOMS"), ("indices_chi2", "CHI2_ATOMS"),
                     ("indices_chi3", "CHI3_ATOMS"), ("indices_chi4", "CHI4_ATOMS"), ("indices_chi5", "CHI5_ATOMS")):
         f = ctx.py.func(DIH, nm)
@@ -294,3 +239,69 @@ def check(ctx):
         s = src(f)
         ctx.decide(("%s(traj.topology)" % idx) in s and "compute_dihedrals(traj, indices, periodic=periodic, opt=opt)" in s, "C07-R4", f, DIH, nm, "dihedral over %s, options forwarded" % idx, "",
                    "%s does not compute the dihedral over %s with the caller's periodic/opt" % (nm, idx))
+
+
+def _backbone_indices_by_evaluation(ctx, mod):
+    from ..tensym import TenSym, Ten, Obj
+    from ..pysym import Unsupported as PUnsupported
+    funcs = {q: f for q, f in mod.functions.items() if "." not in q}
+    env = {}
+    for name in list(IUPAC) + list(CHI):
+        node = mod.module_assign(name)
+        try:
+            env[name] = ast.literal_eval(node) if node is not None else None
+        except Exception:
+            env[name] = None
+    # the residues on both sides of the chain boundary (2 | 3) have complete backbones: a lookup that crosses it would find its atoms
+    spec = [(0, 0, ["N", "CA", "C", "O"]), (0, 1, ["N", "CA", "CB"]), (0, 2, ["N", "CA", "C"]), (1, 3, ["C", "CA", "N"]), (1, 4, ["CA", "N", "C"])]
+    chains = {}
+    atoms = []
+    residues = {}
+    for ci, ri, names in spec:
+        ch = chains.setdefault(ci, Obj(index=ci, residues=[]))
+        r = Obj(index=ri, atoms=[], chain=ch)
+        ch.residues.append(r)
+        residues[ri] = r
+        for nm in names:
+            a_ = Obj(name=nm, index=len(atoms), residue=r)
+            atoms.append(a_)
+            r.atoms.append(a_)
+    top = Obj(chains=[chains[k] for k in sorted(chains)], atoms=atoms, residues=[residues[k] for k in sorted(residues)], _isa=("Topology",))
+
+    def idx(ri, nm):
+        r = residues.get(ri)
+        return None if r is None else next((a_.index for a_ in r.atoms if a_.name == nm), None)
+
+    def definition(pattern):
+        out = []
+        for ci, ri, _n in spec:
+            quad = []
+            for nm in pattern:
+                off = -1 if nm[0] == "-" else (1 if nm[0] == "+" else 0)
+                base = nm[1:] if off else nm
+                rr = ri + off
+                same_chain = any(c == ci and r == rr for c, r, _x in spec)
+                quad.append(idx(rr, base) if same_chain else None)
+            if all(q is not None for q in quad):
+                out.append(tuple(quad))
+        return out
+    for fname, tab in (("indices_phi", "PHI_ATOMS"), ("indices_psi", "PSI_ATOMS"), ("indices_omega", "OMEGA_ATOMS")):
+        fn = mod.functions.get(fname)
+        desc = "%s on the two-chain model topology: quadruples %s with -/+ atoms taken from the neighbouring residue of the same chain" % (fname, IUPAC[tab])
+        if fn is None:
+            ctx.undecided("C07-R4", mod.tree, DIH, fname, desc, "function not found")
+            continue
+        ts = TenSym(dict(env), funcs={k: v for k, v in funcs.items() if k != fname}, models={"hasattr": lambda ev, call: False, "warnings.warn": lambda ev, call: None})
+        try:
+            r = ts.run_fn(fn, top=top)
+        except PUnsupported as e:
+            ctx.undecided("C07-R4", fn, DIH, fname, desc, "not evaluable: %s" % e)
+            continue
+        got = None
+        if isinstance(r, Ten) and r.ndim == 2 and r.shape[1] == 4:
+            v = [x.const_value() for x in r.data]
+            if all(c is not None for c in v):
+                got = [tuple(int(c) for c in v[4 * k:4 * k + 4]) for k in range(r.shape[0])]
+        want = definition(IUPAC[tab])
+        ctx.decide(got == want, "C07-R4", fn, DIH, fname, desc, "%d quadruples" % len(want),
+                   "returned %s; the definition gives %s (atom indices; chains are residues 0-2 and 3-4)" % (got if got is not None else "something that is not an (n, 4) index array", want))
